@@ -291,7 +291,9 @@ pub fn judge_run(case: &SrvCase, run: &SrvRun) -> Judgement {
                         "frame {} (unit {}, tx {}, pdu [{}], class {:?}): server wrote {} but the reference server writes {}",
                         k, f.unit, f.tx, hex(&f.pdu), short_class(&verdict.class), got, describe_expected()
                     );
-                    if (unconfigured || bcast) && silent_expected {
+                    // address 0 is special on serial links only: any wrong answer (or missing
+                    // answer) for it, on either framing, is a multi-drop matter
+                    if ((unconfigured || bcast) && silent_expected) || f.unit == 0 {
                         j.multidrop.get_or_insert(m.clone());
                     }
                     if case.cfg.auth.is_some() && verdict.labels.iter().any(|l| l.starts_with("auth:")) {
@@ -307,7 +309,7 @@ pub fn judge_run(case: &SrvCase, run: &SrvRun) -> Judgement {
                         short_class(&verdict.class),
                         call_err.unwrap_or_default()
                     );
-                    if bcast {
+                    if bcast || f.unit == 0 {
                         j.multidrop.get_or_insert(m.clone());
                     }
                     if case.cfg.auth.is_some() {
@@ -589,7 +591,43 @@ pub fn check_c01(case: &SrvCase) -> CaseResult {
 }
 
 pub fn check_c02(case: &SrvCase) -> CaseResult {
-    finish(judge(case), Facet::Calls)
+    let (j, run) = judge_with_run(case);
+    if j.calls.is_none() && case.cfg.framing == Fr::Mbap && !case.frames.is_empty() {
+        // same requests, each arriving in two pieces with a server command (decode level set to
+        // the level it already has) handled in between: same handler calls, same final state
+        let mut steps = Vec::new();
+        for (k, f) in case.frames.iter().enumerate() {
+            let b = frame_bytes(Fr::Mbap, f);
+            let cut = 1 + (case.select_seed as usize + 7 * k) % (b.len() - 1);
+            steps.push(Step::Bytes(b[..cut].to_vec()));
+            steps.push(Step::Pause);
+            steps.push(Step::SetDecode(case.cfg.decode));
+            steps.push(Step::Pause);
+            steps.push(Step::Bytes(b[cut..].to_vec()));
+            steps.push(Step::Pause);
+        }
+        steps.push(Step::Eof);
+        let split = run_server(
+            &case.cfg,
+            &steps,
+            &SrvOptions {
+                select_seed: case.select_seed,
+                ..Default::default()
+            },
+        );
+        if split.calls != run.calls || split.final_units != run.final_units {
+            let k = split.calls.iter().zip(run.calls.iter()).take_while(|(a, b)| a == b).count();
+            return Err(format!(
+                "requests arriving in two pieces with a server command in between: {} handler calls instead of {}; first difference at call {}: {:?} vs {:?}",
+                split.calls.len(),
+                run.calls.len(),
+                k,
+                split.calls.get(k),
+                run.calls.get(k)
+            ));
+        }
+    }
+    finish(j, Facet::Calls)
 }
 
 pub fn check_c17(case: &SrvCase) -> CaseResult {
